@@ -116,28 +116,31 @@ package goja
 //@   assigns nothing
 
 //@ func (*Runtime).arrayproto_indexOf bounds
-//@   props C07
+//@   props C07 C05
 //@   requires r != nil
 //@   loop 1 invariant true [scan]
 //@   loop 2 vars n int64, length int64
 //@   loop 2 invariant n >= 0 && length <= 9007199254740991 [generic-scan]
 
 //@ func (*Runtime).arrayproto_includes bounds
-//@   props C07
+//@   props C07 C05
 //@   requires r != nil
 //@   loop 1 invariant true [scan]
-//@   loop 2 invariant true [generic-scan]
+//@   loop 2 vars n int64, length int64
+//@   loop 2 invariant n >= 0 && length <= 9007199254740991 [generic-scan]
 
 //@ func (*Runtime).arrayproto_lastIndexOf bounds
-//@   props C07
+//@   props C07 C05
 //@   requires r != nil
 //@   loop 1 vars k int64, fromIndex int64, vals []Value
-//@   loop 1 invariant k <= fromIndex && fromIndex < int64(len(vals)) [inside-the-storage]
-//@   loop 2 invariant true [generic-scan]
+//@   loop 1 invariant k <= fromIndex && fromIndex < int64(len(vals)) && fromIndex <= 9007199254740991 [inside-the-storage]
+//@   loop 2 vars k int64, fromIndex int64
+//@   loop 2 invariant k <= fromIndex && fromIndex <= 9007199254740991 [generic-scan]
 
 //@ func (*Runtime).arrayproto_fill bounds
-//@   props C07
+//@   props C07 C05
 //@   requires r != nil
 //@   loop 1 vars k int64, final int64, arr *arrayObject
 //@   loop 1 invariant k >= 0 && arr != nil && final <= int64(len(arr.values)) [inside-the-storage]
-//@   loop 2 invariant true [generic-fill]
+//@   loop 2 vars k int64, final int64
+//@   loop 2 invariant k >= 0 && final <= 9007199254740991 [generic-fill]
